@@ -12,7 +12,7 @@ C18_CLAUSES = {'NoRequestWhileBusy', 'PollDelayHonoured', 'EraseBeforeWrite', 'A
 C19_CLAUSES = {'OversizeRefusedBeforeAnyDnload', 'ErrorNeverAnnouncedDone'}
 
 BASE = dict(PageSize=2, PageCount=3, MaxLen=7, MaxBusy=2, Timeouts={0, 5}, MaxErrors=2, ErrStatuses={4, 7},
-            StrictDevice=False, Dev_IgnoreDeviceError=False, Dev_SkipSleep=False, Dev_NoEraseLoop=False)
+            StrictDevice=False, Dev_IgnoreDeviceError=False, Dev_SkipSleep=False, Dev_NoEraseLoop=False, Dev_IgnoreSetAddrError=False)
 INVS = ['TypeOK', 'NoRequestWhileBusy', 'PollDelayHonoured', 'EraseBeforeWrite', 'AddressesInFlash',
         'OnlyImagePagesTouched', 'OversizeRefusedBeforeAnyDnload', 'FlashEqualsPaddedImage',
         'ErrorNeverAnnouncedDone', 'OversizeExit']
@@ -48,7 +48,7 @@ def model_runs(run, scratch):
     run.add_tlc('Dfu liveness', r)
     # the invariants are not vacuous: each named deviation is caught by the clause that should catch it
     expect = {'Dev_IgnoreDeviceError': 'ErrorNeverAnnouncedDone', 'Dev_SkipSleep': 'PollDelayHonoured',
-              'Dev_NoEraseLoop': 'NoRequestWhileBusy'}
+              'Dev_NoEraseLoop': 'NoRequestWhileBusy', 'Dev_IgnoreSetAddrError': 'ErrorNeverAnnouncedDone'}
     caught = {}
     for dev, inv in expect.items():
         r = tlc.run('Dfu', _cfg(scratch, 'dfu_' + dev, {dev: True}, invs=[inv]), workers=4, heap='3g', timeout=1800)
@@ -199,7 +199,8 @@ def gen_jobs(run, behaviours):
         n = npages * 1024 - rng.choice([0, 1, 500])
         nops = 3 * npages  # erase per page, then setaddr+write per page
         erase_ops = list(range(npages))
-        write_ops = [npages + 2 * k + 1 for k in range(npages)]
+        # (a page is written by two requests: set address, then the block - an error can be reported for either)
+        write_ops = [npages + 2 * k + 1 for k in range(npages)] + [npages + 2 * k for k in range(npages)]
         for op in erase_ops + write_ops:
             for st in (statuses if run.tier == 'thorough' or npages <= 2 else [rng.choice(statuses), 4, 7]):
                 for strict in (True, False):
